@@ -153,6 +153,15 @@ def run(prop, tier="quick", replay=None, root=None, quiet=False):
 
     rc = 0
     os.makedirs(os.path.join(evid, "violations"), exist_ok=True)
+    if replay:
+        # re-evaluate exactly the recorded rule instance on the current tree
+        try:
+            want = json.load(open(replay)).get("key")
+        except (IOError, ValueError):
+            want = None
+        violations = [v for v in violations if v[0] == want]
+        known_hits = [k for k in known_hits if k[0] == want]
+        emit("replay of %s: %s" % (want, "still violated" if (violations or known_hits) else "no longer violated"))
     seen_keys = set()
     for key, o, msg, r in violations:
         if key in seen_keys:
